@@ -293,7 +293,8 @@ class CornerDataContainer(_BaseDataContainer):
 
     def __iadd__(self, other):
         if isinstance(other, list) or isinstance(other,tuple) or isinstance(other, set):
-            for (e,a) in other:
+            pairs = [(e,a) for (e,a) in other] # unpacked first: a malformed item must not leave the container half extended
+            for (e,a) in pairs:
                 self._elem.append(e)
                 self._adj.append(a)
             for attr in self._attr.values():
